@@ -6028,6 +6028,12 @@ class CodegenCtx:
         except StopIteration:
             actual_else_transition = None
 
+        if state in self.dfa.accepting_states and state.transitions and all(x.error_handling for x in state.transitions):
+            # Only reachable on a call after the parser has finished (DONE postponed by strict-done generation, or the caller
+            # kept feeding): nothing but error transitions are left, so it is still done rather than failed.
+            result.add(f"return {self.program_name.upper()}_DONE;")
+            return result.value()
+
         result.add("// transitions")
         generated_if = False
         
